@@ -68,7 +68,7 @@ def nodeEqB (F : Facts) (v2 : Bool) (fuel : Nat) (g1 g2 : Nat) : Bool :=
   | .sig ps rs va _, .sig ps' rs' va' _ =>
       all2B (fun (p q : Str × Nat) => p.1 = q.1 && kidEqB F v2 fuel p.2 q.2) ps ps' &&
       all2B (fun (p q : Str × Nat) => p.1 = q.1 && kidEqB F v2 fuel p.2 q.2) rs rs' && va = va'
-  | .iface _, .iface _ => true
+  | .iface ms, .iface ms' => ms.map (fun m => (m.name, nameOf v2 m.str)) = ms'.map (fun m => (m.name, nameOf v2 m.str))
   | .named a _ _ _, .named b _ _ _ => kidEqB F v2 fuel a b
   | .basic _, .basic _ => true
   | .other, .other => true
